@@ -1,4 +1,4 @@
-import GV.Driver.Cmd
+import GV.Driver.Hist
 open GV.D
 
 partial def loop (hin hout : IO.FS.Stream) : IO Unit := do
@@ -10,7 +10,9 @@ partial def loop (hin hout : IO.FS.Stream) : IO Unit := do
   else
     let toks := l.splitOn " "
     match toks with
-    | cmd :: rest => hout.putStrLn (handle cmd (parseArgs rest))
+    | cmd :: rest =>
+      let a := parseArgs rest
+      hout.putStrLn (if cmd == "hist" then handleHist a else handle cmd a)
     | [] => hout.putStrLn ""
   hout.flush
   loop hin hout
